@@ -283,3 +283,21 @@ func cmdNonNil(cmd command) bool {
 //@   results (result bool)
 //@   requires data != nil && cmdNonNil(cmd)
 //@   ensures result == statusGoesTo(cmd, data.Mailbox)
+
+// Body structures: the three mutually recursive parsers carry an explicit
+// nesting depth; every cycle through them lowers the measure, so nesting is
+// bounded whatever the server sends.
+//
+//@ func readBody(dec *imapwire.Decoder, options *Options, depth int) (bs imap.BodyStructure, err error)
+//@   props C11:rec-decreases,pre@call
+//@   decreases 2*(maxBodyStructureDepth+1-depth)+1
+
+//@ func readBodyType1part(dec *imapwire.Decoder, typ string, options *Options, depth int) (bs *imap.BodyStructureSinglePart, err error)
+//@   props C11:rec-decreases,pre@call
+//@   requires[C11] depth <= maxBodyStructureDepth
+//@   decreases 2*(maxBodyStructureDepth+1-depth)
+
+//@ func readBodyTypeMpart(dec *imapwire.Decoder, options *Options, depth int) (bs *imap.BodyStructureMultiPart, err error)
+//@   props C11:rec-decreases,pre@call
+//@   requires[C11] depth <= maxBodyStructureDepth
+//@   decreases 2*(maxBodyStructureDepth+1-depth)
